@@ -108,6 +108,17 @@ MUTANTS = [
     ("enter_does_not_clear", ["C17"], BASE, "        self.clear()\n        return self", "        return self"),
     ("gwl_check_deleted", ["C17"], BASE, '        assert ".gwl" in filepath.name.lower(), "The filename did not contain the .gwl extension."\n', ""),
     ("save_drops_last_record", ["C17"], BASE, 'file.write("\\n".join(self))', 'file.write("\\n".join(self[:-1] if len(self) > 3 else self))'),
+    # ---------------- added in the third session (new fault kinds / clauses)
+    ("exit_logs_and_swallows_oserror", ["C17"], BASE, "        if self._filepath:\n            self.save(self._filepath)\n        return\n",
+     "        if self._filepath:\n            try:\n                self.save(self._filepath)\n            except OSError:\n                logger.exception('could not write the worklist')\n        return\n"),
+    ("save_logs_and_swallows_oserror", ["C17"], BASE,
+     '        with open(filepath, "w", newline="\\r\\n", encoding="latin_1") as file:\n            file.write("\\n".join(self))\n',
+     '        try:\n            with open(filepath, "w", newline="\\r\\n", encoding="latin_1") as file:\n                file.write("\\n".join(self))\n        except OSError as ex:\n            logger.warning("failed to write %s: %s", filepath, ex)\n'),
+    ("ctor_negative_check_all_instead_of_any", ["C02"], LAB, "        if np.any(initial_volumes < 0):", "        if np.all(initial_volumes < 0):"),
+    ("report_prints_live_volumes", ["C11"], LAB, '            report += f"\\n{np.round(state, decimals=1)}"', '            report += f"\\n{np.round(self._volumes, decimals=1)}"'),
+    ("add_ignores_empty_composition", ["C01"], LAB, "            if composition is not None and self._composition is not None:", "            if composition and self._composition is not None:"),
+    ("max_volume_guard_cached_at_first_use", ["C03"], BASE, "            max_volume=self.max_volume,\n        )\n        tip_type = \"\"\n        self.append(\n            f\"A;",
+     "            max_volume=self.__dict__.setdefault(\"_max_volume_cached\", self.max_volume),\n        )\n        tip_type = \"\"\n        self.append(\n            f\"A;"),
 ]
 
 
